@@ -847,3 +847,24 @@ _upd("C03", "Repaired in /repo 6e06925: a peer-declared body size (chunk-size li
 PROPS["C03"]["rule"] += (" Declared sizes 2^38+1, 2^40, 2^44 (Content-Length and chunk size, client reader and server) come last: before 6e06925 they "
                          "killed the process with a fatal out-of-memory error, so a regression is a crashed harness (non-zero exit), which bin/check "
                          "reports as a violation naming the announced RISKY-CASE input.")
+# ---- X18: the caller's side of shutdown (Spin) and requests that are still arriving ------------------------------------
+PROPS["C18"]["rule"] += (
+    " X18: the server also runs as a process of its own under Hertz.Spin() with the default signal waiter (op c18spin; both transports): "
+    "healthy / failing registry (Deregister error: Shutdown returns early without transport.Shutdown) / stop signal during a slow OnRun "
+    "hook (before MarkAsRunning) / requests whose body is still arriving at the signal; 0..4 requests in progress; observed: responses, "
+    "exit status and time, whether anything is served later than 120 ms after the signal - compared with the canonical run of the Lean "
+    "model Hertz.Spin and judged by ShutdownSpec.spinViolations. In the in-process scenarios requests are also sent in two parts (head + "
+    "part of the body before the call, the rest during the wait / after the deadline / never; 1..4 such connections next to busy and idle "
+    "ones, both transports): their connections are replayed on the model Hertz.Arrive and judged by clause ten (partlyReceived).")
+_upd("C18", "X18: for every prompt run of the Spin layer, after the stop signal Spin returns and the process ends within ExitWaitTimeout in "
+     "every outcome of Shutdown (nil, Deregister error returned early, errStatusNotRunning), no phase of Spin can block, a connection can "
+     "be accepted after the signal only within that bound and not at all (no time passes) when the engine was not running at the signal "
+     "(spin_returns_bounded, spin_never_stuck, spin_never_serves_after_signal); for every run of the arriving-request model, either "
+     "transport, the shutdown sets no read deadline, answers no partly received request with an error, cuts none, and the rest of a partly "
+     "received request can always arrive and is answered completely until the process ends (partly_received_request_completes); both are "
+     "statements about the source as regenerated (spin_model_matches_gen), with witnesses that they fail for a Spin that waits for Run and "
+     "for a transport that expires the read deadline of all connections.")
+PROPS["C18"]["assumptions"] = [a for a in PROPS["C18"]["assumptions"] if not a.startswith("no service registry")] + [
+    "service registry: only 'Deregister succeeds / fails' (Spin layer); no hijacked connections; no TLS",
+    "Spin layer: Engine.Shutdown at the granularity of its outcomes (the ticker period is added by shutdown_bounded); main returns right after Spin",
+    "a client-side write is taken to have reached the server 10 ms later (loopback) - clause ten judges only requests written that long before the call"]
